@@ -937,7 +937,7 @@ fn main() {
     let args = Args::parse(&argv);
     mon::install_panic_hook();
     mon::set_alloc_active(true);
-    mon::start_watchdog(600);
+    mon::start_watchdog(900);
     let a2 = args.clone();
     let h = std::thread::Builder::new().stack_size(1 << 28).spawn(move || {
         let a = a2;
